@@ -9,6 +9,7 @@ import (
 
 	"verif/core"
 	"verif/model"
+	"verif/runner"
 	"verif/smfdec"
 	"verif/theory"
 )
@@ -134,13 +135,44 @@ func checkC05(c *core.Ctx) {
 			c.Count("skipped_out_of_range", 1)
 			return
 		}
-		r1, o1 := playPiece(c, p, f1, writeOpts{})
-		r2, o2 := playPiece(c, p, f2, writeOpts{})
+		// track counts: the voices of a chord are spread over tracks by their position in the chord, never by pitch
+		tracks := []int{1, 1, 1, 2, 3, 4, 5, 6, 8, 11}[r.Intn(10)]
+		wo := writeOpts{}
+		if tracks > 1 {
+			wo.extra = []string{"--track", fmt.Sprint(tracks)}
+		}
+		// every fourth case takes the two-step route: write conv --key K annotates the instances, write plays them
+		viaConv := i%4 == 3
+		if viaConv {
+			// metadata strings of the class of known finding F-17 (judged by C10) do not survive any YAML-to-YAML step
+			for j := range p.Inst {
+				for k, v := range p.Inst[j].Meta {
+					if strings.Contains(v, "\n") && (strings.HasPrefix(v, "\n") || strings.HasPrefix(v, "\t") || strings.HasPrefix(v, "\r")) {
+						p.Inst[j].Meta[k] = "plain"
+					}
+				}
+			}
+		}
+		play := func(f model.Flags) (*runner.Result, []byte) {
+			if !viaConv {
+				return playPiece(c, p, f, wo)
+			}
+			cv := run(c, p.YAML(model.YAMLStyle{}), append([]string{"write", "conv", "--command", "cmt"}, f.Args()...)...)
+			c.Eval(1)
+			if !cv.OK() || abnormal(cv) != "" {
+				return cv, nil
+			}
+			w := run(c, cv.Stdout, append([]string{"write"}, wo.extra...)...)
+			c.Eval(1)
+			return w, w.Stdout
+		}
+		r1, o1 := play(f1)
+		r2, o2 := play(f2)
 		if infra(c, r1) || infra(c, r2) {
 			return
 		}
 		sig := "transpose"
-		det := withYAML(map[string]any{"k1": k1.String(), "k2": k2.String()}, p)
+		det := withYAML(map[string]any{"k1": k1.String(), "k2": k2.String(), "tracks": tracks, "via_write_conv": viaConv}, p)
 		if a := abnormal(r1); a != "" || !r1.OK() {
 			c.Violate("transpose", i, sig+":failed", "crd write --key "+k1.String()+" fails "+a, det)
 			return
@@ -167,6 +199,87 @@ func checkC05(c *core.Ctx) {
 			}
 		}
 		shift := k1.TonicOffset() - k2.TonicOffset()
+		if viaConv {
+			// the conversion adds a txt with the chord's spelling in the key: texts differ by design, compare the music
+			for _, f := range []*smfdec.File{fa, fb} {
+				for t := range f.Tracks {
+					var keep []smfdec.Event
+					for _, e := range f.Tracks[t].Events {
+						if e.Kind == smfdec.Meta && e.MetaType == 0x01 {
+							continue
+						}
+						keep = append(keep, e)
+					}
+					f.Tracks[t].Events = keep
+				}
+			}
+		}
+		if len(fa.Tracks) != tracks || len(fb.Tracks) != tracks {
+			c.Violate("transpose", i, sig+":tracks", fmt.Sprintf("--track %d gives %d and %d tracks", tracks, len(fa.Tracks), len(fb.Tracks)), det)
+			return
+		}
+		if tracks > 1 {
+			// several tracks: chords are told apart by time. Pitches are relative to the initial key before the
+			// start tick of the first key-changing instance, absolute from there on.
+			changeTick := uint64(1) << 62
+			if firstChange >= 0 {
+				ss := model.StartSets(int(fa.Division), p)
+				for j, in := range p.Inst {
+					if j > 0 && in.Key != "" {
+						if len(ss[j]) != 1 {
+							c.Count("skipped_ambiguous_start", 1)
+							return
+						}
+						changeTick = ss[j][0]
+						break
+					}
+				}
+			}
+			for t := range fa.Tracks {
+				ea, eb := fa.Tracks[t].Events, fb.Tracks[t].Events
+				if len(ea) != len(eb) {
+					c.Violate("transpose", i, sig+":count", fmt.Sprintf("track %d of %d: --key %s gives %d events, --key %s gives %d", t, tracks, k1, len(ea), k2, len(eb)), det)
+					return
+				}
+				for j := range ea {
+					x, y := ea[j], eb[j]
+					if x.Tick != y.Tick || x.Kind != y.Kind || x.MetaType != y.MetaType {
+						c.Violate("transpose", i, sig+":structure", fmt.Sprintf("track %d of %d, event %d differs between --key %s and --key %s: %s vs %s", t, tracks, j, k1, k2, x, y), det)
+						return
+					}
+					switch x.Kind {
+					case smfdec.NoteOn, smfdec.NoteOff:
+						want := shift
+						if (x.Kind == smfdec.NoteOn && x.Tick >= changeTick) || (x.Kind == smfdec.NoteOff && x.Tick > changeTick) {
+							want = 0
+						}
+						if x.Key()-y.Key() != want || (x.Kind == smfdec.NoteOn && x.Vel() != y.Vel()) {
+							c.Violate("transpose", i, sig+":shift", fmt.Sprintf("track %d of %d at tick %d: key %d under --key %s vs %d under --key %s; expected a difference of %d", t, tracks, x.Tick, x.Key(), k1, y.Key(), k2, want), det)
+							return
+						}
+					case smfdec.Meta:
+						if x.MetaType == smfdec.MetaKSig && x.Tick == 0 && j < 8 {
+							continue
+						}
+						if !bytes.Equal(x.Data, y.Data) {
+							c.Violate("transpose", i, sig+":meta", fmt.Sprintf("meta event %02X at tick %d differs between the two keys", x.MetaType, x.Tick), det)
+							return
+						}
+					default:
+						if !bytes.Equal(x.Data, y.Data) {
+							c.Violate("transpose", i, sig+":other", fmt.Sprintf("event %d differs: %s vs %s", j, x, y), det)
+							return
+						}
+					}
+				}
+			}
+			c.Seen("key_pairs", k1.String()+">"+k2.String())
+			c.Seen("track_counts", fmt.Sprint(tracks))
+			if nk > 0 && k1 != k2 {
+				c.Nontrivial(fmt.Sprintf("t%d", i))
+			}
+			return
+		}
 		ea, eb := fa.Tracks[0].Events, fb.Tracks[0].Events
 		if len(ea) != len(eb) {
 			c.Violate("transpose", i, sig+":count", fmt.Sprintf("--key %s gives %d events, --key %s gives %d", k1, len(ea), k2, len(eb)), det)
